@@ -882,3 +882,55 @@ fn c03_reader_hb_extreme_top(7) {
   rig.finish();
 }
 }
+
+// ------------------------------------------------------------------ experiments (tier "experimental"): where does the
+// partial-fragment harness spend its time?
+reader_harness! {
+/// prefix only: one concrete DATAFRAG into the real Reader, nothing else
+fn c03x_partial_prefix_only(7) {
+  let mut rig = make_rig(reliable_qos(), false, reader_guid());
+  rig.match_writer(1, &reliable_qos());
+  let st = rig.mr_state(1, None);
+  let flags = BitFlags::<DATAFRAG_Flags>::from_flag(DATAFRAG_Flags::Endianness);
+  let d = datafrag(1, 1, 2);
+  rig.reader.handle_datafrag_msg(&d, flags, &st);
+  core::mem::forget(d);
+  let s0 = rig.take_sent();
+  assert!(s0.n_acks == 0 && s0.n_nackfrags == 0, "DATAFRAG answered");
+  assert!(rig.reader.is_frag_partially_received(writer_guid(1), SequenceNumber::new(1)));
+  vk_cover!(true, "reached");
+  core::mem::forget(st);
+  rig.finish();
+}
+}
+reader_harness! {
+/// the assembler state is put in place directly (FragmentAssembler's own API on a concrete
+/// fragment), then the symbolic HEARTBEAT
+fn c03x_partial_direct_then_hb(7) {
+  let mut rig = make_rig(reliable_qos(), false, reader_guid());
+  rig.match_writer(1, &reliable_qos());
+  let st = rig.mr_state(1, None);
+  let flags = BitFlags::<DATAFRAG_Flags>::from_flag(DATAFRAG_Flags::Endianness);
+  let d = datafrag(1, 1, 2);
+  let mut fa = FragmentAssembler::new(4);
+  let r = fa.new_datafrag(&d, flags);
+  assert!(r.is_none());
+  core::mem::forget(r);
+  core::mem::forget(d);
+  let old = rig.reader.fragment_assemblers.insert(writer_guid(1), fa);
+  core::mem::forget(old);
+  let last = vk::range_i64(1, 3);
+  let fin: bool = vk::any();
+  let hb = heartbeat(1, 1, last, 1);
+  rig.reader.handle_heartbeat_msg(&hb, fin, &st);
+  let sent = rig.take_sent();
+  assert!(sent.n_acks == 1, "HEARTBEAT not answered by exactly one ACKNACK");
+  let a = sent.acks[0].unwrap();
+  assert!(a.base == 1, "ACKNACK base is not the sample of which only one fragment arrived");
+  assert!(sent.n_nackfrags == 1, "no NACKFRAG for the partially received sample");
+  vk_cover!(last == 3, "three advertised");
+  core::mem::forget(sent);
+  core::mem::forget(st);
+  rig.finish();
+}
+}
